@@ -1,6 +1,7 @@
 import NsyncVerif.Gen.Consts
 import NsyncVerif.Model.Expected
 import NsyncVerif.Model.MuX
+import NsyncVerif.Model.MuQ
 /-
   Tie lemmas (T-gen): the tables regenerated from /repo's current sources agree with what the models
   assume.  Checked by the kernel (`decide`) on every run; a changed mask or threshold, a dropped or
@@ -21,6 +22,14 @@ theorem layout_tie :
     Expected.consts.lookup "MU_WLOCK" = some 1 ∧ Expected.consts.lookup "MU_SPINLOCK" = some 2 ∧
     Expected.consts.lookup "MU_RLOCK" = some 256 ∧ Expected.consts.lookup "MU_WAITING" = some 4 ∧
     Expected.consts.lookup "MU_ALL_FALSE" = some 128 ∧ Expected.consts.lookup "LONG_WAIT_THRESHOLD" = some 30 := by
+  decide
+
+/-- The threshold and the word layout the MuQ model uses are the ones of common.h. -/
+theorem muq_consts_tie :
+    Expected.consts.lookup "LONG_WAIT_THRESHOLD" = some MuQ.longWaitThreshold ∧
+    MuQ.encode (MuQ.decode 255) = 255 ∧ (MuQ.decode 1).wlock = true ∧ (MuQ.decode 2).spin = true ∧
+    (MuQ.decode 4).waiting = true ∧ (MuQ.decode 8).desig = true ∧ (MuQ.decode 16).cond = true ∧
+    (MuQ.decode 32).ww = true ∧ (MuQ.decode 64).lw = true ∧ (MuQ.decode 128).af = true ∧ (MuQ.decode 256).readers = 1 := by
   decide
 
 end NsyncVerif.Tie
